@@ -78,6 +78,9 @@ Definition step_spec (c : cfgT) (w : wobs) (v : sview) : bool :=
       calls_legal f (wo_ks w) calls roots
       && frame roots tab tab'
       && descendants_first m (dedup_adj (map (owner c m) (umount_targets calls)))
+      (* a layer that a mounted derived layer still sits on at the end was not touched *)
+      && forallb (fun x => negb (overlain_by_mount c tab' x)
+                           || negb (existsb (fun t => at_or_under (build_path c x) t) (umount_targets calls))) m
       && match v_res v with
          | ROk =>
            (* success: no layer was busy and every layer ends unmounted *)
